@@ -348,6 +348,17 @@ theorem header_roundtrip (h : BlpH.Hdr) (hn : BlpH.Normal h) (rest : Bytes) :
 theorem header_size (h : BlpH.Hdr) (hn : BlpH.Normal h) (bs : Bytes) (hw : BlpH.write h = .ok bs) :
     bs.length = BlpH.size h.version := BlpH.write_size h hn bs hw
 
+/-- different normal headers are never written as the same bytes (the encoding loses nothing) -/
+theorem header_write_injective (h1 h2 : BlpH.Hdr) (n1 : BlpH.Normal h1) (n2 : BlpH.Normal h2) (bs : Bytes)
+    (w1 : BlpH.write h1 = .ok bs) (w2 : BlpH.write h2 = .ok bs) : h1 = h2 := by
+  obtain ⟨b1, e1, p1⟩ := BlpH.parse_write h1 n1 []
+  obtain ⟨b2, e2, p2⟩ := BlpH.parse_write h2 n2 []
+  rw [w1] at e1; rw [w2] at e2
+  simp only [Except.ok.injEq] at e1 e2
+  subst e1; subst e2
+  rw [p1] at p2
+  simpa using p2
+
 /-- THE PARSER RETURNS NORMAL FORMS ONLY: whatever parse_header accepts has a known version and content tag, a locator
     exactly when the version has one, known compression / alpha type (BLP2) or an alpha depth that re-normalises to itself
     (BLP0/1) — an unknown tag or depth in the file never survives into the structure that is encoded again -/
